@@ -869,6 +869,13 @@ regp_recv(RegP *p, RPMaybeFrame *mf)
         return -EINVAL;
     }
 
+    if (mf->frame == NULL) {
+        /* Not a single octet arrived for this frame, so nothing was allocated
+         * either. An empty frame is shorter than any header. */
+        mf->error.id = EBADMSG;
+        return regp_resp_meta(p, RP_META_EHEADERENC);
+    }
+
     int rc = parse_frame(&cs.buffer);
 
     if (rc < 0) {
